@@ -65,3 +65,21 @@ func TestC16_PositionsBelongToTheNamedSource(t *testing.T) {
 		t.Errorf("macro arity error: got %v; want the inner error to name lib.tpl | Line 6", err)
 	}
 }
+
+// repaired b8c98d2: a load error of import / ssi parsed / extends is not given the referring tag's position
+func TestC16_LoadErrorKeepsItsOwnSource(t *testing.T) {
+	for _, src := range []string{
+		"line one\nline two\n   {% import \"gone.tpl\" m %}",
+		"line one\nline two\n   {% ssi \"gone.tpl\" parsed %}",
+		"line one\nline two\n   {% extends \"gone.tpl\" %}",
+	} {
+		set := newSet(map[string]string{"main.tpl": src})
+		_, err := set.FromFile("main.tpl")
+		if err == nil {
+			t.Fatal("no error")
+		}
+		if e, ok := err.(*pongo2.Error); ok && e.Line > 0 && e.Filename != "main.tpl" {
+			t.Errorf("%v: position %d:%d lies in main.tpl, the error names %q", err, e.Line, e.Column, e.Filename)
+		}
+	}
+}
